@@ -1,5 +1,6 @@
 import Pyunicorn.Model.Proto
 import Pyunicorn.Model.Circuit
+import Pyunicorn.Model.CircuitK
 /-! Line-protocol driver for C18: one request per line on stdin, one answer per line. -/
 open Pyunicorn Pyunicorn.Proto Pyunicorn.Circuit
 
@@ -45,6 +46,38 @@ def netAnswer (n : Nat) (adj : Adj) (res : Mat) : String :=
       "lc=" ++ showVec n (localClustering n adj adm),
       "gc=" ++ showRat (globalClustering n adj adm)] "|"
 
+/-! complex impedances: the field model of `Model/CircuitK.lean` at the Gaussian rationals -/
+def cmatOf (re im : String) : CircuitK.MatK CircuitK.GRat :=
+  let a := ratMat re
+  let b := ratMat im
+  fun i j => ⟨(a.getD i []).getD j 0, (b.getD i []).getD j 0⟩
+
+def showCMat (n : Nat) (f : CircuitK.MatK CircuitK.GRat) : String :=
+  showRatMat (ofFun n fun i j => (f i j).re) ++ "&" ++ showRatMat (ofFun n fun i j => (f i j).im)
+def showCVec (n : Nat) (f : Nat → CircuitK.GRat) : String :=
+  showRats ((List.range n).map fun i => (f i).re) ++ "&" ++ showRats ((List.range n).map fun i => (f i).im)
+def showC (z : CircuitK.GRat) : String := showRat z.re ++ "&" ++ showRat z.im
+
+/-- observables of a freshly constructed complex `ResNetwork(Z, adjacency=adj)` -/
+def cnetAnswer (n : Nat) (adj : Adj) (res : CircuitK.MatK CircuitK.GRat) : String :=
+  let ok := (List.range n).all fun i => (List.range n).all fun j => !adj i j || decide (res i j ≠ 0)
+  if !ok then "undefined:zero-impedance" else
+  let adm := CircuitK.toFun (CircuitK.ofFun n (CircuitK.admittance adj res))
+  let L := CircuitK.toFun (CircuitK.ofFun n (CircuitK.laplacian n adm))
+  match CircuitK.pinvCert n L with
+  | none => "undefined:no-certified-pinv"
+  | some R =>
+    join [
+      "adm=" ++ showCMat n adm,
+      "lap=" ++ showCMat n L,
+      "R=" ++ showCMat n R,
+      "er=" ++ showCMat n (CircuitK.effRes R),
+      "avg=" ++ showC (CircuitK.averageOf n (CircuitK.allPairs n R)),
+      "ercc=" ++ showCVec n (CircuitK.ercc n R),
+      "ad=" ++ showCVec n (CircuitK.admDegree n adm),
+      "lc=" ++ showCVec n (CircuitK.localClustering n adj adm),
+      "gc=" ++ showC (CircuitK.globalClustering n adj adm)] "|"
+
 def op? (s : String) : Option Op :=
   match s.splitOn "=" with
   | ["A"] => some .average
@@ -79,6 +112,7 @@ def op? (s : String) : Option Op :=
 def answer (toks : List String) : String :=
   match toks with
   | ["net", n, adj, res] => netAnswer n.toNat! (adjOf adj) (matOf res)
+  | ["cnet", n, adj, re, im] => cnetAnswer n.toNat! (adjOf adj) (cmatOf re im)
   | "hist" :: n :: adj :: res :: ops =>
       match ops.mapM op? with
       | none => "bad-request"
